@@ -64,5 +64,14 @@ func checkSpecs() map[string]CheckSpec {
 	}, Explanation: "bigxy.OrientationIndex (floating-point filter and big.Float fallback) on integer-valued ordinates: exact-representability obligations, exact RN53 model for integer results beyond 2^53, (1+d) enclosure for the multiplication by dpSafeEpsilon, precision-tracking model of math/big.Float.",
 		Assumptions: []string{"math/big.Float follows its documented precision/rounding rules (model in engine/bigfloat.go)"},
 		Outside: []string{"non-integer ordinates; ordinates beyond the grid bound (most of [1e-100,1e100])"}})
+	add(CheckSpec{Property: "C11", Harnesses: []HarnessSpec{
+		{Func: "HC11_SignOfDet", Pkg: "xy/internal/robustdeterminate", Domain: X, IntInputs: true, Covers: []string{"end"}},
+		{Func: "HC11_Ring", Pkg: "xy", Domain: X, Covers: []string{"end"}},
+		{Func: "HC11_RingEndToEnd", Pkg: "xy", Domain: X, IntInputs: true, Covers: []string{"end"}},
+		{Func: "HC11_OnLine", Pkg: "xy", Domain: X, Covers: []string{"end"}},
+		{Func: "HC11_OnLineTooShort", Pkg: "xy", Domain: X, Covers: []string{"end"}},
+	}, Explanation: "Ray-crossing point location and on-line tests executed symbolically on integer-grid rings/lines against exact references; SignOfDet2x2 and OrientationIndex summarised by their specifications, which are checked separately.",
+		Assumptions: []string{"summary: robustdeterminate.SignOfDet2x2 = sign(x1*y2 - y1*x2) (checked against the real loop by HC11_SignOfDet for |v| <= 2^3|2^5 only)", "summary: bigxy.OrientationIndex = sign of the exact determinant (C10, grid <= 2^25)"},
+		Outside: []string{"rings with more vertices than the bound", "SignOfDet2x2 beyond the small grid on which its loop is unrolled", "non-grid floats"}})
 	return m
 }
